@@ -336,6 +336,8 @@ def o8(W, ob):
                      'the spectator fetches frame current + 1', 'the spectator fetches frame `%s`' % v, where(sp, t.line))
 
 
+from . import helpers
+
 OBLIGATIONS = [
     ('C02.O1', 'single constructors', 'SaveGameState / LoadGameState are built only in save_current_state / load_frame '
      'with frame, cell and counter agreeing; load_frame keeps its three assertions.', o1),
@@ -350,4 +352,5 @@ OBLIGATIONS = [
     ('C02.O7', 'frame-0 save', 'In rollback mode the first simulation of frame 0 is preceded by a save of frame 0.', o7),
     ('C02.O8', 'SyncTest and spectator siblings', 'SyncTest saves (check_distance > 0) before fetching and stepping; the '
      'spectator steps only after inputs_at_frame succeeded, fetching frame current+1.', o8),
+    ('C02.H', 'helpers the rules above rely on', 'the bodies of the helpers named by this property\'s rules compute what the rules assume (get_cell, saved_state_by_frame, cell_accessors); see rules/helpers.py', helpers.bundle('get_cell', 'saved_state_by_frame', 'cell_accessors')),
 ]
